@@ -28,6 +28,9 @@ pub fn run_plans(plans: &[Vec<PlannedStep>], cfg: sched::SimConfig) -> MtOutcome
     let n = plans.len();
     let mailboxes: Arc<Vec<Mutex<Option<Ctx>>>> = Arc::new((0..n).map(|_| Mutex::new(None)).collect());
     let finding: Arc<Mutex<Option<HFinding>>> = Arc::new(Mutex::new(None));
+    // every actor hands its context back to the main thread at the end (moved across threads
+    // once more), where all of them are observed one after the other on ONE thread
+    let returned: Arc<Vec<Mutex<Option<Ctx>>>> = Arc::new((0..n).map(|_| Mutex::new(None)).collect());
     let migrations = Arc::new(Mutex::new(0u64));
     let steps_done = Arc::new(Mutex::new(0u64));
     // which actors are ever created
@@ -47,6 +50,7 @@ pub fn run_plans(plans: &[Vec<PlannedStep>], cfg: sched::SimConfig) -> MtOutcome
         let finding = finding.clone();
         let migrations = migrations.clone();
         let steps_done = steps_done.clone();
+        let returned = returned.clone();
         let is_created = created[k];
         bodies.push(Box::new(move || {
             if !is_created {
@@ -123,10 +127,61 @@ pub fn run_plans(plans: &[Vec<PlannedStep>], cfg: sched::SimConfig) -> MtOutcome
                     return;
                 }
             }
+            *returned[k].lock().unwrap() = Some(ctx);
         }));
     }
     let report = sched::simulate(cfg, bodies);
     let mut f = finding.lock().unwrap().take();
+    if f.is_none() {
+        // final cross-check on the main thread: all contexts against the last state the model
+        // predicts for each; function lookups are probed name-major (the same name on every
+        // context in turn), then the complete observation per context
+        let mut ctxs: Vec<(usize, Ctx)> = Vec::new();
+        for k in 0..n {
+            if let Some(c) = returned[k].lock().unwrap().take() {
+                if !plans[k].is_empty() {
+                    ctxs.push((k, c));
+                }
+            }
+        }
+        let probe = evalexpr::Value::Int(41);
+        'names: for (pi, name) in ["f", "g", "len", "a", "nofn", "len", "typeof"].iter().enumerate() {
+            for (k, c) in &ctxs {
+                let last = plans[*k].last().unwrap();
+                let got = format!("{}:{}", name, verifsim::canon::cr(&evalexpr::Context::call_function(c, name, &probe)));
+                if last.obs.fn_probes.get(pi) != Some(&got) {
+                    f = Some(HFinding {
+                        class: "state-mismatch".into(),
+                        step: last.index,
+                        actor: *k,
+                        expected: format!("(final name-major probe of all contexts on the main thread) {:?}", last.obs.fn_probes.get(pi)),
+                        actual: got,
+                    });
+                    break 'names;
+                }
+            }
+        }
+        if f.is_none() {
+            for (k, ctx) in &ctxs {
+                let last = plans[*k].last().unwrap();
+                let obs = match std::panic::catch_unwind(std::panic::AssertUnwindSafe(|| observe_real(ctx))) {
+                    Ok(o) => o,
+                    Err(_) => continue,
+                };
+                if obs != last.obs {
+                    let (expected, actual) = last.obs.diff(&obs);
+                    f = Some(HFinding {
+                        class: "state-mismatch".into(),
+                        step: last.index,
+                        actor: *k,
+                        expected: format!("(final observation of all contexts on the main thread) {}", expected),
+                        actual,
+                    });
+                    break;
+                }
+            }
+        }
+    }
     if f.is_none() {
         if let Some((t, msg)) = report.panics.first() {
             f = Some(HFinding {
